@@ -163,7 +163,8 @@ func (d *PathDecoder) isPosInsideAttrExpr(attr *hclsyntax.Attribute, pos hcl.Pos
 	}
 
 	// edge case: near end (typically newline char)
-	if attr.Expr.Range().End.Byte == pos.Byte {
+	// (the range of an unterminated expression may end at the zero position)
+	if attr.Expr.Range().End.Byte == pos.Byte && attr.Expr.Range().Start.Byte <= pos.Byte {
 		return true
 	}
 
